@@ -95,3 +95,24 @@ Fixpoint pays_policy_b (hops : list phop) : bool :=
 
 Definition last_hmin (hops : list phop) : Z :=
   match List.rev hops with h :: _ => ph_hmin h | nil => 0 end.
+
+(** Exact form, for a raise at ANY position: the final hop carries [value]; every other hop
+    carries the larger of its own minimum and what has to be forwarded (the amount of the next hop
+    plus the policy fee of the next channel for that amount), the difference to the next hop's
+    amount being the fee left with the node in between.  So a hop below its minimum is raised to
+    exactly the minimum, the surplus is paid as fee, and every hop before it is computed for the
+    RAISED amount. *)
+Definition first_amount (hops : list phop) : Z :=
+  match amounts hops with a :: _ => a | nil => 0 end.
+
+Fixpoint exact_policy (value : Z) (hops : list phop) : Prop :=
+  match hops with
+  | nil => True
+  | h :: t =>
+      match t with
+      | nil => ph_fee h = value
+      | h' :: _ =>
+          exists req, compute_fees (first_amount t) (ph_fees h') = Some req /\ 
+            first_amount (h :: t) = Z.max (ph_hmin h) (first_amount t + req)
+      end /\ exact_policy value t
+  end.
